@@ -44,6 +44,13 @@ static const Scenario kScenarios[] = {
             "ghsrc c", "gh o", { { "o", "gh", 0, NULL }, { NULL } } },
   /* 15 */ { "dyndep_two_files", { RULES "rule mkdd\n  command = scan $in > $out\nbuild dd: mkdd ddsrc\nbuild dd2: mkdd ddsrc2\nbuild h2: gen s\nbuild out: cc in || dd\n  dyndep = dd\nbuild out2: cc in2 || dd2\n  dyndep = dd2\nbuild x: cc out out2\n", NULL, NULL },
             "ddsrc ddsrc2 s in in2", "x", { { "dd", "", 0, "ninja_dyndep_version = 1\nbuild out | out.imp: dyndep | h2\n" }, { "dd2", "", 0, "ninja_dyndep_version = 1\nbuild out2: dyndep | h2\n" }, { "h2", "", KEEP_IF_SAME | HALVE, NULL }, { "out", "h2", 0, NULL }, { "out2", "h2", 0, NULL }, { NULL } } },
+  /* 16 */ { "cycle_explicit", { RULES "build a: cc b\nbuild b: cc c s\nbuild c: cc a\nbuild d: cc s\nbuild e: cc a d\n", NULL, NULL }, "s", "a b d e", { { NULL } } },
+  /* 17 */ { "cycle_order_only_implicit", { RULES "build a: cc s || b\nbuild b: cc s | a\nbuild d: cc s\n", NULL, NULL }, "s", "a b d", { { NULL } } },
+  /* 18 */ { "cycle_multi_output", { RULES "build a a2: cc b\nbuild b: cc a2\nbuild top: cc a d\nbuild d: cc s\n", NULL, NULL }, "s", "a b top d", { { NULL } } },
+  /* 19 */ { "validation_on_requester", { RULES "build a: cc s |@ v\nbuild v: cc a\nbuild w: cc s |@ w2\nbuild w2: cc s |@ w\n", NULL, NULL }, "s", "a v w", { { NULL } } },
+  /* 20 */ { "cycle_by_depfile", { RULES "build a: ccf s\nbuild b: cc a\nbuild d: cc s\n", NULL, NULL }, "s", "b d", { { "a", "b", 0, NULL }, { NULL } } },
+  /* 21 */ { "cycle_by_deps_log", { RULES "build a: ccd s\nbuild b: cc a\nbuild d: cc s\n", NULL, NULL }, "s", "b d", { { "a", "b", 0, NULL }, { NULL } } },
+  /* 22 */ { "self_cycle", { RULES "build a: cc a\nbuild p: phony p\nbuild d: cc s p\n", NULL, NULL }, "s", "a d", { { NULL } } },
 };
 #ifndef SCENARIO
 #define SCENARIO 0
